@@ -73,6 +73,8 @@ fn scenario(seed: u64, lane: Lane, r: &mut Rng, faults: bool) -> Honest {
 struct Facts {
     /// addresses the genuine client used: address -> first time it was in use
     genuine: BTreeMap<SocketAddr, u64>,
+    /// address -> the last time the client moved (back) to it
+    arrived: BTreeMap<SocketAddr, u64>,
     /// spoofed replays delivered to an endpoint: (arrival time, spoofed source, bytes)
     spoofs: Vec<(u64, SocketAddr, usize)>,
 }
@@ -174,7 +176,7 @@ pub fn migrate_case(seed: u64, lane: Lane, trace: bool) -> CaseOut {
     if download_only {
         out.cnt.inc("c15.download_only_cases");
     }
-    let mut facts = Facts { genuine: BTreeMap::new(), spoofs: vec![] };
+    let mut facts = Facts { genuine: BTreeMap::new(), arrived: BTreeMap::new(), spoofs: vec![] };
     facts.genuine.insert(w.eps[1].addr, 0);
     // address changes at random instants of the transfer
     let n_moves = 1 + r.below(4);
@@ -213,6 +215,11 @@ pub fn migrate_case(seed: u64, lane: Lane, trace: bool) -> CaseOut {
             }
             w.eps[1].addr = a;
             facts.genuine.entry(a).or_insert(w.now);
+            if old != a {
+                // (a client that returns to an address it used before has been there since its
+                // return, not since its first visit)
+                facts.arrived.insert(a, w.now);
+            }
             out.cnt.inc(if alt >= 0x100 { "c15.moves_full_address" } else { "c15.moves_port_only" });
             if tell {
                 for c in w.eps[1].conns.values_mut() {
@@ -246,7 +253,7 @@ pub fn migrate_case(seed: u64, lane: Lane, trace: bool) -> CaseOut {
         let orig = addr_of(1, 0);
         judge_transmits(&w, 0, *ch, &facts, true, orig, &mut viol, &mut out.cnt);
         if let Some(cm) = w.mon.conns.get(&(0, *ch)) {
-            let moved_at = facts.genuine.get(&final_addr).copied().unwrap_or(0);
+            let moved_at = facts.arrived.get(&final_addr).copied().unwrap_or(0);
             let last = cm.tx_log.last().copied();
             if let Some((t, dst, _)) = last {
                 // did the server have reason and time to follow? it sent something well after the move
@@ -264,7 +271,7 @@ pub fn migrate_case(seed: u64, lane: Lane, trace: bool) -> CaseOut {
     // has not followed, whatever became of the transfer
     for (ch, c) in &w.eps[0].conns {
         if let Some(cm) = w.mon.conns.get(&(0, *ch)) {
-            let moved_at = facts.genuine.get(&final_addr).copied().unwrap_or(0);
+            let moved_at = facts.arrived.get(&final_addr).copied().unwrap_or(0);
             let heard = cm.paths.get(&final_addr).map_or(0, |p| p.recvd);
             let spoke = cm.tx_log.iter().any(|x| x.1 == final_addr);
             if final_addr != addr_of(1, 0) && heard > 0 && !spoke && w.now > moved_at + 10_000_000_000 && c.app.lost.is_empty() && !c.c.is_closed() {
@@ -338,7 +345,7 @@ fn hijack_case(seed: u64, lane: Lane, trace: bool, victim: u8) -> CaseOut {
         w.trace = Some(vec![]);
     }
     let mut out = CaseOut::default();
-    let mut facts = Facts { genuine: BTreeMap::new(), spoofs: vec![] };
+    let mut facts = Facts { genuine: BTreeMap::new(), arrived: BTreeMap::new(), spoofs: vec![] };
     facts.genuine.insert(w.eps[1].addr, 0);
     let to_ep = if victim == 1 { 1 } else { 0 };
     let n_attacks = 1 + r.below(6);
